@@ -26,6 +26,23 @@
    (what the measurement model returns NOW, the belief passed NOW); nothing computed at an
    earlier call of the same object is an input.  The correspondence check drives one object
    through several calls with changing R / y / h / belief / sizes to tie this to the code.
+   Object lifetime: the model has no object at all, so "for every SUKFCorrection / UKFCorrection
+   object" is read over every way the API lets one obtain it: the constructors, the hand-written
+   noexcept move constructors SUKFCorrection(SUKFCorrection&&) / UKFCorrection(UKFCorrection&&)
+   (copying is deleted in GaussianCorrection and there is no move assignment), hence also the
+   relocation of the elements of a growing std::vector.  In the library as it is, the members a
+   correct() call reads (the measurement model, ut_weight_, measurement_sub_size_, the
+   reduced-covariance flag; for the UKF also the type tag and alpha/beta/kappa) are all carried by
+   the move constructors, so a moved object computes the same function as the one it was moved
+   from and nothing is added to the model: the inputs of the model functions below are exactly
+   these members plus the arguments of the call.  The correspondence check obtains its subjects
+   fresh / move-constructed / move-constructed after use / through vector growth (case meta
+   `lifetime`).  What a move does NOT carry (propagated_sigma_points_, innovations_: the last
+   step's likelihood; the skip flag of the GaussianCorrection base) is outside this model: it is
+   overwritten by the next correct() call, which is what the property speaks about.
+   Callback re-entrancy: likewise the model functions are pure, so a complete correction of another
+   object running inside a callback of the measurement model cannot change the result; the check
+   runs twin objects inside every callback for a fraction of the cases (case meta `intrude`).
    No proofs in this file. *)
 Require Import ZArith List.
 Require Import BFL.Ops BFL.Density.
